@@ -743,6 +743,11 @@ Lemma observing_keeps_state : forall st,
   step st SScribble = Some st.
 Proof. intros [[h refs] top]. repeat split. Qed.
 
+(* keeping a dictionary, restoring it later and editing the copies the caller owns change nothing either *)
+Lemma saving_keeps_state : forall st,
+  step st SSave = Some st /\ (forall orest, step st (SRestoreSaved orest) = Some st).
+Proof. intros [[h refs] top]. repeat split. Qed.
+
 Lemma nth_upd : forall (A : Type) (g : A -> A) (d : A) (l : list A) o i,
   (o < List.length l)%nat -> nth i (upd o g l) d = if Nat.eqb i o then g (nth i l d) else nth i l d.
 Proof.
